@@ -205,6 +205,19 @@ def run_loaders(case: dict) -> CaseInfo:
                 setattr(o, k, v)
             results["object"] = snapshot(Config.from_object(o))
 
+            # settings classes: values as class attributes, partly inherited from a base class,
+            # partly set on the instance (the usual shape of a "Settings" object)
+            items = list(mapping.items())
+            Base = type("BaseSettings", (), dict(items[0::3]))
+            Sub = type("Settings", (Base,), dict(items[1::3]))
+            inst = Sub()
+            for k, v in items[2::3]:
+                setattr(inst, k, v)
+            results["object(class attrs + inherited + instance)"] = snapshot(
+                Config.from_object(inst))
+            results["object(class attrs only)"] = snapshot(
+                Config.from_object(type("AllSettings", (), dict(items))()))
+
             body = "".join(f"{k} = {v!r}\n" for k, v in mapping.items())
             pyfile = os.path.join(tmp, "conf_file.py")
             with open(pyfile, "w", encoding="utf-8") as f:
@@ -528,12 +541,13 @@ def bind_strategy(draw: Any) -> dict:
     n = draw(st.integers(1, 3))
     binds = []
     for _ in range(n):
-        shape = draw(st.sampled_from(["v4port", "v4bare", "v6port", "v6bare", "unix", "fd"]))
+        shape = draw(st.sampled_from(["v4port", "v4bare", "v6port", "v6bare", "unix", "unix_rel",
+                                      "fd"]))
         host4 = "127.%d.%d.%d" % (draw(st.integers(0, 255)), draw(st.integers(0, 255)),
                                   draw(st.integers(1, 254)))
         port = draw(st.integers(20000, 60999))
         binds.append({"shape": shape, "host4": host4, "port": port,
-                      "name": draw(st.text(alphabet="abcxyz019_-. ", min_size=1, max_size=10)),
+                      "name": draw(st.text(alphabet="abcxyzuni019_-. :", min_size=1, max_size=10)),
                       "fdkind": draw(st.sampled_from(["tcp4", "tcp6", "unix", "udp4"]))})
     return {"binds": binds, "sock_type": draw(st.sampled_from(["stream", "stream", "dgram"])),
             "workers": draw(st.integers(1, 3))}
@@ -569,6 +583,10 @@ def run_binds(case: dict) -> CaseInfo:
                 path = os.path.join(tmp, f"{i}-{b['name']}.sock")
                 strings.append("unix:" + path)
                 expect.append((socket.AF_UNIX, path))
+            elif sh == "unix_rel":  # relative to the working directory (the case's scratch dir)
+                path = f"{b['name']}-{i}.sock"
+                strings.append("unix:" + path)
+                expect.append((socket.AF_UNIX, path))
             else:
                 kind = b["fdkind"]
                 fam, ty = {"tcp4": (socket.AF_INET, socket.SOCK_STREAM),
@@ -586,6 +604,7 @@ def run_binds(case: dict) -> CaseInfo:
         config = Config()
         config.workers = case["workers"]
         config.bind = strings
+        os.chdir(tmp)
         want_type_error = any(e[0] == "fd" and e[2] != type_ for e in expect)
         try:
             opened = config._create_sockets(config.bind, type_)
@@ -620,6 +639,7 @@ def run_binds(case: dict) -> CaseInfo:
                     f"want {fam!r} {type_!r} {addr!r}",
                 )
     finally:
+        os.chdir(str(VERIF))
         for s in opened:
             try:
                 s.close()
